@@ -297,7 +297,67 @@ pub fn run_c02(cx: &Cx) -> PropResult {
     );
     r.extra = json!({"programs": programs, "disagreements_checked": comparisons, "generated_source": "harness/vcat/src/generated.rs", "generator_params": format!("{:?}", vcat::compiled::GENERATED_PARAMS)});
     r.assumptions = vec!["the model interprets the declaration JSON; the compiled code is the derive output — they share nothing but the declaration".into()];
+    known_f24(&mut r);
     r
+}
+
+/// F24 (DESIGN §6): the macro recognises an optional field by the *spelling* of its type. A field whose type is an
+/// alias of Option<_> is read with read_field::<Option<_>>; when a FieldMadeOptional step names it, the stored header
+/// makes read_field consume the Option tag as the "is defined" flag and decode Option<_> from the value's own bytes.
+#[cfg(not(feature = "no_keep"))]
+mod own {
+    pub type Maybe = Option<u32>;
+    #[derive(Debug, Clone, PartialEq, desert::BinaryCodec)]
+    #[evolution(FieldMadeOptional("m"))]
+    pub struct Alias {
+        pub m: Maybe,
+    }
+    /// the same declaration with the type spelled out: the control
+    #[derive(Debug, Clone, PartialEq, desert::BinaryCodec)]
+    #[evolution(FieldMadeOptional("m"))]
+    pub struct Spelled {
+        pub m: Option<u32>,
+    }
+}
+
+#[cfg(feature = "no_keep")]
+fn known_f24(_: &mut PropResult) {}
+
+#[cfg(not(feature = "no_keep"))]
+fn known_f24(r: &mut PropResult) {
+    use crate::run::guarded;
+    let mut wrong: Vec<String> = Vec::new();
+    let mut cases = 0u64;
+    for m in [None, Some(0u32), Some(5), Some(255), Some(256), Some(0x00ff_ffff), Some(0x0100_0000), Some(0x0200_0000), Some(u32::MAX)] {
+        cases += 1;
+        let ctl = guarded(|| desert::serialize_to_byte_vec(&own::Spelled { m }).and_then(|b| desert::deserialize::<own::Spelled>(&b)));
+        if !matches!(&ctl, Ok(Ok(v)) if v.m == m) {
+            r.acc.violation(format!("#[evolution(FieldMadeOptional(\"m\"))] struct Spelled {{ m: Option<u32> }} with m = {m:?} reads its own bytes as {ctl:?}"), json!({"special": "Spelled"}));
+            return;
+        }
+        let bytes = guarded(|| desert::serialize_to_byte_vec(&own::Alias { m }));
+        let back = match &bytes {
+            Ok(Ok(b)) => guarded(|| desert::deserialize::<own::Alias>(b)),
+            _ => Err("not encoded".into()),
+        };
+        match (&bytes, &back) {
+            (Ok(Ok(_)), Ok(Ok(v))) if v.m == m => {}
+            (Err(p), _) | (_, Err(p)) if p != "not encoded" => {
+                // a panic is not part of the known behaviour
+                r.acc.violation(format!("type Maybe = Option<u32>; #[evolution(FieldMadeOptional(\"m\"))] struct Alias {{ m: Maybe }} with m = {m:?}: panic {p}"), json!({"special": "Alias"}));
+                return;
+            }
+            _ => wrong.push(format!("{m:?} -> {}", match &back { Ok(Ok(v)) => format!("Ok({:?})", v.m), Ok(Err(e)) => format!("Err({})", vcat::errinfo(e).kind), Err(e) => e.clone() })),
+        }
+    }
+    r.acc.bump("alias_of_option_witnesses", cases);
+    if !wrong.is_empty() {
+        r.lines.push(format!(
+            "KNOWN-FINDING: property=C02 F24 a field made optional whose Option type is written through a type alias (type Maybe = Option<u32>; FieldMadeOptional(\"m\"); m: Maybe) does not read its own bytes back: {}",
+            wrong.join("; ")
+        ));
+        *r.acc.known.entry("F24".into()).or_insert(0) += 1;
+    }
 }
 
 pub fn replay_c02(case: &Value) -> Verdict {
